@@ -43,6 +43,14 @@ build_c18() {
   export IKESIM_YIELD_SITES="$(tail -n1 "$WORK/astyield.log")"
 }
 
+if [ -n "${VERIF_REPO:-}" ]; then
+  # alternative tree (used by the sensitivity catalogue): point the replace at it
+  sed "s#=> /repo#=> $REPO#" "$SIM/go.mod" >"$WORK/go.alt.mod"; cp "$SIM/go.sum" "$WORK/go.alt.sum"
+  export GOFLAGS="$GOFLAGS -modfile=$WORK/go.alt.mod"
+  # evidence of a run against another tree must never replace the real evidence
+  export VERIF_EVIDENCE_DIR="${VERIF_EVIDENCE_DIR:-$WORK/evidence}"
+fi
+
 if [ "$1" = "replay" ]; then
   build_plain
   if grep -q '"property": "C18"' "$2" 2>/dev/null; then build_c18; fi
@@ -51,16 +59,8 @@ if [ "$1" = "replay" ]; then
 fi
 
 PROP="$1"; TIER="$2"
-[ -n "${VERIF_TIER:-}" ] && TIER="$VERIF_TIER"
+# the tier argument is authoritative; VERIF_TIER is informational
 case "$TIER" in quick|thorough) ;; *) echo "bad tier $TIER" >&2; exit 2;; esac
-
-if [ -n "${VERIF_REPO:-}" ]; then
-  # alternative tree (used by the sensitivity catalogue): point the replace at it
-  sed "s#=> /repo#=> $REPO#" "$SIM/go.mod" >"$WORK/go.alt.mod"; cp "$SIM/go.sum" "$WORK/go.alt.sum"
-  export GOFLAGS="$GOFLAGS -modfile=$WORK/go.alt.mod"
-  # evidence of a run against another tree must never replace the real evidence
-  export VERIF_EVIDENCE_DIR="${VERIF_EVIDENCE_DIR:-$WORK/evidence}"
-fi
 
 build_plain
 [ "$PROP" = "C18" ] && build_c18
